@@ -36,7 +36,7 @@ tvars == <<regs, iter, l, hashOf, nbad>>
 Complain(cond, what) == IF cond THEN <<>> ELSE <<what>>
 
 \* Derived probes: the harness grew a clone of every vector the call produced with zeros,
-\* serialised it and asked is_zero.  p.w names the probed vector: the returned vector(s)
+\* serialised it, asked is_zero and compared it with a fresh vector holding the same bits.  p.w names the probed vector: the returned vector(s)
 \* ("ob", "oq") or the subject afterwards ("pb").  Storage dirt beyond len shows up here.
 ProbeTarget(e, w) == CASE w = "ob" -> e.o.b [] w = "oq" -> e.o.q [] w = "pb" -> e.pb
 ProbeOk(p, res) ==
@@ -45,6 +45,7 @@ ProbeOk(p, res) ==
   /\ p.g = res \o Zeros(Len(p.g) - Len(res))
   /\ p.by = ToBytesLE(res)
   /\ p.z = (IF IsZero(res) THEN 1 ELSE 0)
+  /\ p.e = 1                 \* == / cmp / >= against a fresh vector holding the same bits
 ConfProbes(ev, e) ==
   IF "pr" \notin DOMAIN ev THEN <<>>
   ELSE Complain(\A i \in 1..Len(ev.pr) : ProbeOk(ev.pr[i], ProbeTarget(e, ev.pr[i].w)),
